@@ -48,6 +48,43 @@ def natoms_of(run):
     return m + 1
 
 
+def session_run(text: str, F, rng, mode=None):
+    """the same module in a real pytest session (plugin/fork driver); observation in the shape of
+    inline_driver.run_session (tests carry the pytest outcome instead of counters)"""
+    import shutil
+    import tempfile
+    from pathlib import Path as P
+    from . import session_driver as sd
+    d = P(tempfile.mkdtemp(prefix="verif_proj_"))
+    try:
+        (d / "test_case.py").write_text(text)
+        if F:
+            flags = list(F)
+            rng.shuffle(flags)
+            if mode in ("report",):
+                flags.append("report")
+            args = ["--inline-snapshot=" + ",".join(flags)]
+        else:
+            args = rng.choice([[], ["--inline-snapshot=report"], ["--inline-snapshot=short-report"]])
+        r = sd.run_fork(d, args)
+        oc = sd.outcomes(r)
+        obs = {"tests": [], "import_error": None, "finish_error": None, "sites": None, "log": r["log"],
+               "rc": r["rc"], "args": args, "stdout": r["stdout"][-3000:], "stderr": r["stderr"][-1500:]}
+        if r["timed_out"] or r["session"] is None:
+            obs["finish_error"] = ["session", "timed out" if r["timed_out"] else "no session record", r["stderr"][-800:]]
+        elif r["session"].get("internal_errors") or "INTERNALERROR" in r["stdout"] or r["rc"] not in (0, 1):
+            obs["finish_error"] = ["INTERNALERROR", (r["session"].get("internal_error_text") or r["stdout"])[-600:], ""]
+        n = 1
+        while ("test_case.py::test_%d" % n) in oc:
+            o = oc["test_case.py::test_%d" % n]
+            obs["tests"].append({"outcome": o, "exc": None if o == "passed" else [o, ""], "missing": 0, "incorrect": 0})
+            n += 1
+        obs["files"] = {"test_case.py": (d / "test_case.py").read_text()}
+        return obs
+    finally:
+        shutil.rmtree(d, ignore_errors=True)
+
+
 def replay_one(run, seed: int, driver=None):
     """Concretise, execute against the real code, abstract, compare.  Returns (mismatches, info)."""
     from . import inline_driver, render_core
@@ -58,9 +95,12 @@ def replay_one(run, seed: int, driver=None):
     imp = bool(exp.get("imp", False))
     text = render_core.render(ops, srcs, prog, beta, imp, rng)
     F = [CATS[c] for c in exp["F"]]
-    obs = (driver or inline_driver.run_session)({"test_case.py": text}, F)
+    if driver == "session":
+        obs = session_run(text, F, rng)
+    else:
+        obs = inline_driver.run_session({"test_case.py": text}, F)
     mism = []
-    info = {"beta": beta.name, "F": F, "imp": imp}
+    info = {"beta": beta.name, "F": F, "imp": imp, "driver": driver or "inline"}
 
     def mm(clause, props, detail):
         mism.append({"clause": clause, "props": props, "detail": detail, "run": run["id"],
@@ -98,12 +138,21 @@ def replay_one(run, seed: int, driver=None):
     orig = inline_driver.snapshot_args(text)
     line_to_site = {"test_case.py:%d:%d" % (l, c): i for i, (l, c, _, _) in enumerate(orig, 1)}
     pend = {i: [] for i in range(1, len(ops) + 1)}
-    for key, cats in obs["sites"].items():
+    for key, cats in (obs["sites"] or {}).items():
         if key in line_to_site:
             pend[line_to_site[key]] = cats
         else:
             mm("site-key", ["C14"], {"key": key})
+    if driver == "session":
+        # exit status of the session: non-zero iff some test failed or errored
+        exp_rc = 1 if any(exp["failed"]) else 0
+        if obs["rc"] != exp_rc:
+            mm("rc", ["C07"], {"exp": exp_rc, "got": obs["rc"], "args": obs["args"]})
+        if len(obs["tests"]) != len(prog):
+            mm("tests-lost", ["C07"], {"exp": len(prog), "got": len(obs["tests"])})
     for i in range(1, len(ops) + 1):
+        if obs["sites"] is None:
+            break
         e = sorted(CATS[c] for c in exp["pending"][i - 1])
         if sorted(pend[i]) != e:
             mm("pending", ["C05"], {"site": i, "exp": e, "got": sorted(pend[i])})
@@ -135,14 +184,15 @@ def replay_one(run, seed: int, driver=None):
 
 
 def _worker(args):
-    runs, seed = args
+    runs, seed = args[0], args[1]
+    driver = args[2] if len(args) > 2 else None
     import io
     import contextlib
     out = []
     for run in runs:
         try:
             with contextlib.redirect_stderr(io.StringIO()):
-                mism, info, text, obs = replay_one(run, seed)
+                mism, info, text, obs = replay_one(run, seed, driver)
             out.append({"id": run["id"], "mism": mism, "info": info,
                         "text": text if mism else None,
                         "new": obs.get("files", {}).get("test_case.py") if mism else None})
